@@ -56,6 +56,15 @@ Extra == { B("Sub", tt, N("Tup", << A, L >>)), B("Sub", tt, N("Tup", << L >>)), 
            \* a slice that is not the last index: its bounds end at the comma
            B("Sub", tt, N("Tup", << I, L >>)), B("Sub", tt, N("Tup", << I, I >>)),
            B("Sub", tt, N("Tup", << L, I, L >>)) }
+\* containers as elements of containers: tuples of 0, 1 and 2 elements in every position of a
+\* tuple, an index tuple, an argument list, a keyword value
+TupElems == { N("Tup", << >>), N("Tup", << x >>), N("Tup", << x, y >>) }
+Nest == UNION { { N("Tup", << t, L >>), N("Tup", << L, t >>), N("Tup", << t >>), N("Tup", << L, t, L >>),
+                  B("Sub", tt, N("Tup", << t, L >>)), B("Sub", tt, N("Tup", << L, t >>)),
+                  Call(ff, << t >>), Call(ff, << t, L >>), Call(ff, << L, t >>),
+                  CallKw(ff, << L >>, << KwArg("k1", N("Tup", << t, L >>)) >>),
+                  CallKw(ff, << t >>, << KwArg("k1", t) >>) } : t \in TupElems }
+        \cup { N("Tup", << t, u >>) : t \in TupElems, u \in TupElems }
 \* names a sloppy lexer splits: keyword / literal-word prefixes, digits, underscores
 TrickyNames == {"not_x", "not1", "or_1", "and2", "if_", "else_9", "note", "iffy", "orb", "Truex",
                 "Nonesuch", "_y", "x_1", "a_b"}
@@ -88,7 +97,7 @@ FirstHoleTy(e) ==
                       LET r == FirstHoleTy(ks[i]) IN IF r # "" THEN r ELSE Go(i + 1)
          IN Go(1)
 
-Roots == Skel(A) \cup Extra \cup Leaves \cup NameRoots
+Roots == Skel(A) \cup Extra \cup Leaves \cup NameRoots \cup Nest
          \cup (IF Tier = "quick" THEN MidSkel(M) ELSE Skel(M))
 
 Init == tree \in Roots
